@@ -83,6 +83,24 @@ def quantise(lp):
     return min(q, SATURATE), e   # "probabilities" above 2 are recorded saturated (TLC integers are 32-bit)
 
 
+def quantise_wide(lp):
+    """as quantise, for probabilities down to 1e-300 (exponent computed in the log domain)"""
+    if isinstance(lp, str) or math.isnan(lp):
+        return None
+    if lp == -math.inf:
+        return 0, 0
+    l10 = lp / math.log(10.0)
+    e = max(0, int(math.floor(-l10)))
+    q = int(round(10.0 ** (l10 + 9 + e)))
+    if q >= 10**9 and e > 0:
+        e -= 1
+        q = int(round(10.0 ** (l10 + 9 + e)))
+    if q < 10**8 and l10 < 0:
+        e += 1
+        q = int(round(10.0 ** (l10 + 9 + e)))
+    return min(q, SATURATE), e
+
+
 def composition(rnd, total, k, p_zero):
     """random composition of `total` into k naturals; entries are zero with prob p_zero
     (at least one is positive)"""
@@ -181,6 +199,41 @@ def random_trace(task):
                 ev.append({"op": "error", "what": "assemble_prior", "d": parts, "U": U, "value": str(lp)})
             else:
                 ev.append({"op": "asm", "d": parts, "U": U, "q": qe[0], "e": qe[1]})
+        # ... high (pooled) ploidies, recorded as "genobig" (no walk)
+        if rnd.random() < 0.35:
+            P2 = rnd.choice([9, 11, 12, 13, 16, 20])
+            K2 = rnd.randint(1, 3)
+            fn2 = 0 if rnd.random() < 0.5 else rnd.randint(1, 63)
+            n2 = composition(rnd, 64, K2, 0.15)
+            ev.append({"op": "begin", "P": P2, "K": K2, "fn": fn2, "fd": 64, "m": 64, "n": n2, "walk": 0})
+            fr2 = np.array([x / 64 for x in n2], dtype=np.float64)
+            for _j in range(6):
+                g = sorted(rnd.randrange(K2) for _ in range(P2))
+                if _j == 0:
+                    g = [0] * P2
+                lp = _call(CP.log_genotype_prior, np.array(g, dtype=np.int64), K2, fn2 / 64, fr2)
+                qe = quantise_wide(lp)
+                if qe is None:
+                    ev.append({"op": "error", "what": "genotype_prior", "g": g, "value": str(lp)})
+                else:
+                    ev.append({"op": "genobig", "g": g, "q": qe[0], "e": qe[1]})
+                d = [g.count(a) for a in range(K2)]
+                lp = _call(AP.log_genotype_prior, np.array(d, dtype=np.int8), math.log(8), fn2 / 64)
+                qe = quantise_wide(lp)
+                if qe is not None:
+                    ev.append({"op": "asmbig", "d": d, "Uk": 3, "q": qe[0], "e": qe[1]})
+            continue
+        # ... and for loci with many SNVs: U = 2^k possible haplotypes (k up to 70), U carried as limbs in the spec
+        for _j in range(3):
+            k = rnd.choice([20, 33, 40, 52, 55, 60, 70])
+            parts = [x for x in composition(rnd, P, P, 0.5)]
+            rnd.shuffle(parts)
+            lp = _call(AP.log_genotype_prior, np.array(parts, dtype=np.int8), k * math.log(2), F)
+            qe = quantise_wide(lp)
+            if qe is None:
+                ev.append({"op": "error", "what": "assemble_prior", "d": parts, "U": "2^%d" % k, "value": str(lp)})
+            else:
+                ev.append({"op": "asmbig", "d": parts, "Uk": k, "q": qe[0], "e": qe[1]})
     return ev
 
 
